@@ -20,7 +20,7 @@ CaseOf(r) == [pieces |-> Pieces, origin |-> Origin0, exp |-> [st |-> r.st, recs 
               zone |-> FALSE, tpl |-> tpl, why |-> r.why]
 Emit == PrintT(<<"REPLAY", ToJson(CaseOf(ReadChars(Chars(Templates[tpl][1]) \o str \o Chars(Templates[tpl][2]), Origin0)))>>)
 
-G_Alphabet == {"a", "1", " ", "\t", "\n", "\r", ";", "(", ")", "\"", "\\", "$", "@", ".", "\f"}
+G_Alphabet == {"a", "1", "-", "_", " ", "\t", "\n", "\r", ";", "(", ")", "\"", "\\", "$", "@", ".", "\f"}
 G_Origin == <<"example", "com">>
 G_Templates == <<
     <<"o 5 IN TXT ", "\n">>,                  \* character strings as RDATA
